@@ -1,6 +1,7 @@
 """C06 - call()/wait() resume the caller exactly once with the result, leaving no residue."""
 
 from .. import kernelgen
+from . import c05
 from ..kernelcheck import run_kernel_check
 
 def _h(comp, names, prio, script):
@@ -130,13 +131,16 @@ def mutate(rnd, prog, lines):
 def run(tier, replay=None):
     quick = tier == 'quick'
     spec = {
-        'own': ['C06'],
+        'own': ['C06', 'C05'],     # 'the caller's own event then completes as if the handler had run synchronously': completion clauses count here too
         'families': [
             {'name': 'callwait', 'programs': [fam_callwait(2 if quick else 3)], 'hist_programs': [fam_callwait(2 if quick else 3)],
              'hist_cap_quick': 600},
             {'name': 'nested', 'programs': [fam_nested(2 if quick else 3)], 'hist_programs': [fam_nested(2 if quick else 3)],
              'hist_cap_quick': 600},
             {'name': 'timeouts', 'programs': fam_timeouts(), 'hist_programs': fam_timeouts(), 'hist_cap_quick': 400},
+            # two calls in sequence under a completion-tracked event; the second callee starts a chain (shared with C05)
+            {'name': 'calls', 'programs': [c05.fam_calls(2 if quick else 3)], 'hist_programs': [c05.fam_calls(2 if quick else 3)],
+             'hist_cap_quick': 300},
         ],
         'teeth': [{'name': 'callwait/GenErrorHang', 'programs': [fam_callwait(2)], 'variants': {'GenErrorHang': True},
                    'expect': {'ConformsC05', 'ConformsC06', 'ConformsC04', 'CompleteDelivered', 'NoTaskResidue'}}],
